@@ -69,6 +69,12 @@ fn base_argv(case: &Case, in_dir: &Path) -> (Vec<String>, Vec<String>) {
     (head, files)
 }
 
+/// Only the problem files of a save directory (anything else anthem may put there - a listing, a lock, a log - is
+/// not a problem and is not handed to a prover).
+pub fn read_problem_files(dir: &Path) -> Vec<(String, Vec<u8>)> {
+    read_dir_files(dir).into_iter().filter(|(n, _)| n.ends_with(".p")).collect()
+}
+
 pub fn read_dir_files(dir: &Path) -> Vec<(String, Vec<u8>)> {
     let mut v: Vec<(String, Vec<u8>)> = fs::read_dir(dir)
         .map(|rd| {
@@ -114,7 +120,7 @@ pub fn prepare(case: &Case, scratch: &mut Scratch) -> Prepared {
         false,
         body,
     );
-    let reference = read_dir_files(&out);
+    let reference = read_problem_files(&out);
     let _ = fs::remove_dir_all(&out);
     Prepared { in_dir, reference, reference_stdout: r.sim.stdout, reference_status: r.status }
 }
@@ -141,7 +147,7 @@ fn prepare_via_binary(case: &Case, scratch: &mut Scratch) -> Prepared {
         Ok(p) => ExecStatus::MainErr(String::from_utf8_lossy(&p.stderr).into_owned()),
         Err(e) => ExecStatus::MainErr(e.to_string()),
     };
-    let reference = read_dir_files(&out);
+    let reference = read_problem_files(&out);
     let _ = fs::remove_dir_all(&out);
     Prepared { in_dir, reference, reference_stdout: vec![], reference_status: status }
 }
@@ -174,7 +180,7 @@ pub fn run_case(case: &Case, prep: &Prepared, spec: SchedSpec, max_steps: usize,
     argv.extend(files);
     let result = run_execution(Scenario { argv, cpus: case.cpus, plan: case.plan.clone() }, spec, max_steps, keep_log, body);
     let saved = out.map(|d| {
-        let v = read_dir_files(&d);
+        let v = read_problem_files(&d);
         let _ = fs::remove_dir_all(&d);
         v
     });
